@@ -235,13 +235,15 @@ def cfg_items():
 
 PANIC_PAT = re.compile(r"\.unwrap\(\)|\.expect\(|\bpanic!|\bunreachable!|\bunimplemented!|\btodo!|\bassert(_eq|_ne)?!\(|"
                        r"\b[a-z_][a-z0-9_]*(\.[a-z_][a-z0-9_]*)*\[[^\]\n;]+\]|\bas (u8|u16|u32|i16|i32|usize|f32)\b")
-def panic_sites():
+APP_FILES = ["apps/src/1090/1090.rs", "apps/src/radar/radar.rs", "apps/src/radar/airplanes.rs", "apps/src/radar/stats.rs", "apps/src/radar/cli.rs",
+             "apps/src/radar/map.rs", "apps/src/radar/coverage.rs", "apps/src/radar/help.rs"]
+def panic_sites(files=None):
     """inventory of the constructs that can panic or silently wrap in the two library crates (outside tests and the
     verification hooks): unwrap/expect, panic-family macros, assertions, slice indexing, narrowing casts; one line per
     site, `file::function: normalised statement`. The model writes each of them out as a `Res.panic` branch or a guarded
     narrowing; a new site is a broken tie of C01."""
     out = []
-    for path in ["libadsb_deku/src/lib.rs", "libadsb_deku/src/adsb.rs", "libadsb_deku/src/bds.rs", "libadsb_deku/src/cpr.rs",
+    for path in files or ["libadsb_deku/src/lib.rs", "libadsb_deku/src/adsb.rs", "libadsb_deku/src/bds.rs", "libadsb_deku/src/cpr.rs",
                  "libadsb_deku/src/crc.rs", "libadsb_deku/src/mode_ac.rs", "rsadsb_common/src/lib.rs"]:
         src = strip_comments(read(path))
         src = re.split(r"#\[cfg\(test\)\]", src)[0]
@@ -256,6 +258,53 @@ def panic_sites():
             if PANIC_PAT.search(t):
                 out.append("%s::%s: %s" % (path.split("/")[0] + "/" + path.split("/")[-1], fn, re.sub(r"\s+", " ", t)[:140]))
     return "\n".join(out) + "\n"
+
+def fn_bodies():
+    """normalised text of every function of the tracker crate and of the two client programs, keyed `<file>::<impl>::<fn>`;
+    the tracker / client models were written against these bodies, an edit to one of them is a broken tie of the properties
+    that rest on its model (C12-C18, C20)"""
+    out = {}
+    files = ["rsadsb_common/src/lib.rs", "apps/src/1090/1090.rs"] + sorted("apps/src/radar/" + f for f in os.listdir(os.path.join(REPO, "apps/src/radar")) if f.endswith(".rs"))
+    for path in files:
+        src = strip_comments(read(path))
+        src = re.split(r"#\[cfg\(test\)\]", src)[0]
+        # enclosing impl of every position
+        impls = [(m.start(), re.sub(r"\s+", " ", m.group(1)).strip()) for m in re.finditer(r"\bimpl(?:<[^>]*>)?\s+([^{;]+?)\s*\{", src)]
+        for m in re.finditer(r"\bfn\s+([A-Za-z_0-9]+)", src):
+            i = m.end(); depth = 0
+            # find the body's opening brace (a `;` first means a declaration without body)
+            while i < len(src) and src[i] not in "{;": i += 1
+            if i >= len(src) or src[i] == ";": continue
+            j = i; instr = False
+            while j < len(src):
+                ch = src[j]
+                if instr:
+                    if ch == "\\": j += 1
+                    elif ch == '"': instr = False
+                elif ch == '"': instr = True
+                elif ch == "'" and j + 2 < len(src) and (src[j + 2] == "'" or (src[j + 1] == "\\" and src[j + 3] == "'")):
+                    j += 3 if src[j + 1] == "\\" else 2      # char literal
+                elif ch == "{": depth += 1
+                elif ch == "}":
+                    depth -= 1
+                    if depth == 0: break
+                j += 1
+            body = re.sub(r"\s+", " ", src[m.start():j + 1]).strip()
+            # signature attributes directly above (cfg) matter too
+            imp = ""
+            for pos, name in impls:
+                if pos < m.start(): imp = name
+            # is the fn really inside that impl? (top-level fns after an impl block): check brace balance between impl start and fn
+            if imp:
+                pos = max(p for p, n in impls if p < m.start())
+                seg = src[pos:m.start()]
+                if seg.count("{") - seg.count("}") <= 0: imp = ""
+            if m.group(1).startswith("verif_"): continue          # the verification hooks are not part of the modelled code
+            key = "%s::%s%s" % (path.replace("/src", ""), (imp + "::") if imp else "", m.group(1))
+            k = key; n = 2
+            while k in out: k = "%s#%d" % (key, n); n += 1
+            out[k] = body
+    return out
 
 def main():
     os.makedirs(OUT, exist_ok=True)
@@ -299,6 +348,8 @@ end Adsb.Gen
     open(os.path.join(OUT, "cfg_items.txt"), "w").write(cfg_items())
     open(os.path.join(OUT, "panic_sites.txt"), "w").write(panic_sites())
     open(os.path.join(OUT, "shapes.json"), "w").write(json.dumps(shapes, indent=1, sort_keys=True))
+    open(os.path.join(OUT, "fns.json"), "w").write(json.dumps(fn_bodies(), indent=1, sort_keys=True))
+    open(os.path.join(OUT, "panic_sites_apps.txt"), "w").write(panic_sites(APP_FILES))
     print(json.dumps({"tables_sha": hashlib.sha256(lean.encode()).hexdigest()[:16],
                       "layout_sha": hashlib.sha256(lay.encode()).hexdigest()[:16],
                       "shapes_sha": hashlib.sha256(json.dumps(shapes, sort_keys=True).encode()).hexdigest()[:16],
